@@ -22,6 +22,32 @@ def run(w: World, rep: Report):
     ev = w.handler_for('OP_EVAL')
     cs = w.handler_for('OP_CHECK_SIG')
     evals = cfg.nodes_with_call(lambda c: isinstance(c.func, ast.Name) and c.func.id == ev.name)
+    if not evals:
+        runs = cfg.nodes_with_call(lambda c: isinstance(c.func, ast.Name) and c.func.id == 'run_tape')
+        if runs:
+            # the script path re-implements evaluation instead of handing the script to OP_EVAL: whatever OP_EVAL does
+            # for an evaluated script (copies of the definitions and flags, plugins, contracts, call accounting, return
+            # handling, the disallow flag) has to be repeated exactly - the native lock and the non-native one, which
+            # does use OP_EVAL, then differ as soon as one of them is missing
+            def tape_kws(f):
+                out = []
+                for x in ast.walk(f.node):
+                    if isinstance(x, ast.Call) and isinstance(x.func, ast.Name) and x.func.id == 'Tape' and x.keywords:
+                        out.append({k.arg: ast.unparse(k.value).replace(' ', '') for k in x.keywords if k.arg})
+                return out
+            want_kws = tape_kws(ev)
+            got_kws = tape_kws(fi)
+            if len(want_kws) == 1 and got_kws:
+                missing = sorted(set(want_kws[0]) - set().union(*[set(g) for g in got_kws]))
+                differing = sorted(k for k in want_kws[0] for g in got_kws if k in g and g[k] != want_kws[0][k])
+                if missing or differing:
+                    rep.check('C05.R1', f'functions.{fi.name}|script-path-evaluates-like-OP_EVAL', False,
+                              line=runs[0][0].line, file=REL,
+                              why='the committed script is run by a private copy of the evaluation code whose sub-tape ' +
+                              (f'lacks {missing} of what OP_EVAL gives an evaluated script' if missing else
+                               f'sets {differing} differently from OP_EVAL') +
+                              ': the native lock no longer evaluates like EVAL (and like the non-native lock, which uses it)')
+                    return
     if len(evals) != 1:
         raise AnalysisError('OP_TAPROOT: expected exactly one OP_EVAL call')
     en, ec = evals[0]
